@@ -169,6 +169,7 @@ func checkC11(r *mon.Run) {
 	nops := r.N(5000, 200000)
 	dirs := []string{efivarsDir, "/sys/firmware/efi/efivars-verif-fake", "/x"}
 	// sequential: the legacy API and attributes.Efivars are process-global
+	shared := efivarfs.NewFS() // one long-lived object used across directory changes
 	for i := 0; i < nops; i++ {
 		rng := mon.Rand(r.Seed, "C11", i)
 		dir := dirs[rng.Intn(len(dirs))]
@@ -186,6 +187,9 @@ func checkC11(r *mon.Run) {
 		switch api {
 		case "object":
 			e := efivarfs.NewFS()
+			if i%2 == 1 {
+				e = shared
+			}
 			e.SetFS(rec)
 			if p := tryP(func() { err = e.WriteVar(v, m) }); p != "" {
 				r.Violation("C11|write|panic|"+api, p, replay)
@@ -271,6 +275,9 @@ func checkC11(r *mon.Run) {
 		var lbuf *bytes.Buffer
 		if rapi == "object" {
 			e := efivarfs.NewFS()
+			if i%3 == 1 {
+				e = shared
+			}
 			e.SetFS(rec2)
 			if p := tryP(func() { gotAttrs, err = e.GetVarWithAttributes(v, &spy) }); p != "" {
 				r.Violation("C11|read|panic|"+rapi, p, replay)
